@@ -403,6 +403,34 @@ func (in *Interp) InstallStd() {
 	}
 	in.Stubs["sort.Stable"] = sortIface
 	in.Stubs["sort.Sort"] = sortIface
+	// iter.Pull: the sequence is materialised, next hands the values out one by one
+	in.Stubs["iter.Pull"] = func(in *Interp, _ Value, a []Value) ([]Value, error) {
+		var vals []Value
+		switch x := a[0].(type) {
+		case *Seq:
+			vals = append(vals, x.Elems...)
+		default:
+			collect := &Stub{Name: "yield", Fn: func(in *Interp, args []Value) ([]Value, error) {
+				if len(args) > 0 {
+					vals = append(vals, copyVal(args[0]))
+				}
+				return []Value{true}, nil
+			}}
+			if _, err := in.CallValue(a[0], []Value{collect}); err != nil {
+				return nil, err
+			}
+		}
+		i := 0
+		next := &Stub{Name: "next", Fn: func(in *Interp, _ []Value) ([]Value, error) {
+			if i < len(vals) {
+				i++
+				return []Value{vals[i-1], true}, nil
+			}
+			return []Value{nil, false}, nil
+		}}
+		stop := &Stub{Name: "stop", Fn: func(in *Interp, _ []Value) ([]Value, error) { return nil, nil }}
+		return []Value{next, stop}, nil
+	}
 	in.Stubs["slices.AppendSeq"] = func(in *Interp, _ Value, a []Value) ([]Value, error) {
 		s, err := seqOf(a[1])
 		if err != nil {
